@@ -213,8 +213,20 @@ def gen_sched_case(rng, variant, gp=False, profile=False, rich=False):
         if kind == "hyperband" and str(p.get("type", "")).startswith("rush"):
             if rng.random() < 0.7:
                 case["loss_profile"] = "rush"
-            if rng.random() < 0.2:
-                p["rung_system_kwargs"] = {"num_threshold_candidates": rng.choice([1, 2])}
+            if rng.random() < 0.5:
+                # RUSH with its own threshold candidates; the unrelated instances are RUSH schedulers of the same
+                # type and rung levels with threshold candidates of their own, whose losses are shifted by a
+                # constant and who report at the same rung levels
+                p["rung_system_kwargs"] = {"num_threshold_candidates": rng.choice([1, 2, 3])}
+                for _, pp in pol:
+                    pp.update(type=p["type"], grace=p.get("grace", 1), rf=p.get("rf", 3), max_t=p["max_t"],
+                              brackets=p.get("brackets", 1), mode=p["mode"],
+                              rung_system_kwargs={"num_threshold_candidates": rng.choice([1, 2, 3])},
+                              loss_shift=(-10.0 if p["mode"] == "min" else 10.0) * rng.choice([1, 1, -1]),
+                              report_epochs=min(p["max_t"], 9), initial_trials=rng.choice([2, 3, 4]))
+                    pp.pop("alt_space", None)
+                case["layout"] = None
+                case["rush_interleaved"] = True
     if kind == "dehb":
         # DEHB after trial failures: suggest() did not terminate before /repo commit 6439fb9 (C05 finding F-C05-2,
         # dehb_bracket_manager.trial_id_from_parent_slot) and still raises KeyError / AssertionError (F-C05-3/4);
@@ -406,6 +418,10 @@ def judge(ctx, case, ra, rb, hashseeds, facts=None, funcmap=None):
         ctx.h("options", "unrelated instances with explicit nested options: %d" % len(case.get("polluters") or []))
         if ra.get("shared_restrict"):
             ctx.h("options", "restrict_configurations list object shared with unrelated instances")
+        if case.get("rush_interleaved"):
+            ctx.h("options", "RUSH twin with threshold candidates, unrelated RUSH instances with shifted losses")
+        if case.get("long_hypertune"):
+            ctx.h("options", "long Hyper-Tune twin (>= 30 suggestions)")
         if case.get("layout"):
             ctx.h("options", case["layout"])
         if case.get("loss_profile"):
@@ -768,6 +784,18 @@ def run(ctx, replay=None):
         k = n_gp * (3 if v[2] in boost else 1)
         for i in range(k):
             gp_cases.append(gen_sched_case(rng, v, gp=True, profile=(i == 0)))
+    # long Hyper-Tune twins: >= 30 suggestions, reports at all rung levels (its cross-validated ensemble weights need
+    # >= 6 observations at the second rung level before that code runs at all)
+    ht = [v for v in GP_VARIANTS if v[1].get("searcher") == "hypertune"][0]
+    for _ in range(ctx.n(1, 6) + (2 if "hyperband_hypertune" in boost else 0)):
+        c = gen_sched_case(rng, ht, gp=True)
+        c["params"].update(max_t=9, rf=3, grace=1, brackets=rng.choice([1, 2]),
+                           search_options={"num_init_random": 3, "opt_maxiter": 3, "opt_nstarts": 1,
+                                           "num_init_candidates": 10})
+        c["params"].pop("opts", None)
+        c.update(steps=rng.choice([170, 200]), workers=4, p_fail=0.0, ties=False, long_hypertune=True, profile=False,
+                 space=SPACES[1])
+        gp_cases.append(c)
     sim_cases = [gen_sim_case(rng) for _ in range(n_sim * (4 if "sim_experiment" in boost else 1))]
     ctx.sample(dict(kind="twin scheduler case", case={k: v for k, v in cases[-1].items() if k != "other_kinds"}))
     ctx.sample(dict(kind="twin GP case", case={k: v for k, v in gp_cases[-1].items() if k != "other_kinds"}))
